@@ -276,7 +276,7 @@ func VerifC13Block(outKind int) {
 	})
 	root, _ := types.TxMerkleRoot([]*bc.Tx{coinbase.Tx})
 	b := &types.Block{
-		BlockHeader: types.BlockHeader{Version: 1, Height: height, PreviousBlockHash: parent.Hash(), Timestamp: now},
+		BlockHeader:  types.BlockHeader{Version: 1, Height: height, PreviousBlockHash: parent.Hash(), Timestamp: now},
 		Transactions: []*types.Tx{coinbase},
 	}
 	b.TransactionsMerkleRoot = bc.Hash{V0: verifU64("root0"), V1: verifU64("root1"), V2: verifU64("root2"), V3: verifU64("root3")}
